@@ -310,7 +310,7 @@ class XPath2Parser(XPath1Parser):
             if arg is None or self_.parser.schema is None:
                 return []
 
-            value = self_.string_value(arg)
+            value = self_.atomic_string_value(arg)
             try:
                 return self_.parser.schema.cast_as(value, atomic_type_name)
             except (TypeError, ValueError) as err:
